@@ -18,6 +18,19 @@ type solverDef struct {
 }
 
 var solvers = []solverDef{
+	// E-matching only (every quantifier carries patterns): fast on provable goals, fast "unknown" otherwise
+	{"z3-new-ematch", func(f string, s int) []string {
+		return []string{"z3-new", "-smt2", fmt.Sprintf("-T:%d", s), "smt.mbqi=false", "smt.auto_config=false", f}
+	}},
+	{"z3-new-ematch-a2", func(f string, s int) []string {
+		return []string{"z3-new", "-smt2", fmt.Sprintf("-T:%d", s), "smt.mbqi=false", "smt.auto_config=false", "smt.arith.solver=2", f}
+	}},
+	{"z3-ematch", func(f string, s int) []string {
+		return []string{"z3", "-smt2", fmt.Sprintf("-T:%d", s), "smt.mbqi=false", "smt.auto_config=false", f}
+	}},
+	{"cvc5-ematch", func(f string, s int) []string {
+		return []string{"cvc5", "--lang=smt2", fmt.Sprintf("--tlimit=%d", s*1000), f}
+	}},
 	{"z3-new", func(f string, s int) []string { return []string{"z3-new", "-smt2", fmt.Sprintf("-T:%d", s), f} }},
 	{"z3", func(f string, s int) []string { return []string{"z3", "-smt2", fmt.Sprintf("-T:%d", s), f} }},
 	{"cvc5", func(f string, s int) []string {
@@ -109,10 +122,11 @@ func discharge(obls []*Obligation, dir string, secs, workers int) {
 			file := filepath.Join(dir, fmt.Sprintf("o%05d.smt2", i))
 			txt := ""
 			if o.Kind == "vacuity" || o.Kind == "cover" {
-				txt = o.vc.renderNoQuant(o.prefix, o.goal, o.extra)
+				txt = o.vc.renderNoQuant(o.prefix, o.goal, o.extra, o.tags)
 			} else {
-				txt = o.vc.render(o.prefix, o.goal, o.extra)
+				txt = o.vc.render(o.prefix, o.goal, o.extra, o.tags)
 			}
+			txt = "; " + o.Name + "\n" + txt
 			os.WriteFile(file, []byte(txt), 0o644)
 			r := solveOne(file, secs, nil)
 			o.Solver, o.Ms = r.solver, r.ms
@@ -161,7 +175,7 @@ func getModel(file, solver string, secs int) string {
 			continue
 		}
 		a := s.args(mf, secs)
-		if s.name == "cvc5" {
+		if strings.HasPrefix(s.name, "cvc5") {
 			a = append(a[:len(a)-1], "--produce-models", mf)
 		}
 		out, _ := exec.Command(a[0], a[1:]...).CombinedOutput()
